@@ -4,6 +4,7 @@ import (
 	"errors"
 	"fmt"
 	"net/http"
+	"time"
 
 	"github.com/karagenc/socket.io-go/engine.io/parser"
 	"github.com/karagenc/socket.io-go/engine.io/transport"
@@ -23,6 +24,8 @@ type Duplex struct {
 	DropC2S, DropS2C map[int]bool
 	// CutBeforeC2S / CutBeforeS2C: the pipe breaks when frame n of that direction is about to be sent (-1 = never).
 	CutBeforeC2S, CutBeforeS2C int
+	// Latency: every frame is delivered this much (virtual time) after it was sent; order is kept.
+	Latency time.Duration
 
 	C *DuplexEnd // client end
 	S *DuplexEnd // server end
@@ -38,6 +41,7 @@ type DuplexEnd struct {
 	server    bool
 	cb        *transport.Callbacks
 	inbox     []*parser.Packet
+	inboxAt   []time.Duration // earliest delivery instant per inbox entry (virtual clock, Latency > 0 only)
 	sig       chan struct{}
 	closed    bool // Close() called (with callback)
 	discarded bool
@@ -93,6 +97,9 @@ func (e *DuplexEnd) Send(packets ...*parser.Packet) {
 			}
 			e.Sent = append(e.Sent, fmt.Sprintf("%d:%s", p.Type, p.Data))
 			e.peer().inbox = append(e.peer().inbox, p)
+			if e.d.Latency > 0 {
+				e.peer().inboxAt = append(e.peer().inboxAt, time.Duration(vsched.Now().UnixNano())+e.d.Latency)
+			}
 		})
 		if brk {
 			e.wake()
@@ -109,6 +116,7 @@ func (e *DuplexEnd) Send(packets ...*parser.Packet) {
 func (e *DuplexEnd) loop() {
 	for {
 		var p *parser.Packet
+		var wait time.Duration
 		stop, broken := false, false
 		e.d.V.Do(func() {
 			if e.closed || e.discarded {
@@ -116,6 +124,13 @@ func (e *DuplexEnd) loop() {
 				return
 			}
 			if len(e.inbox) > 0 {
+				if len(e.inboxAt) > 0 {
+					if d := e.inboxAt[0] - time.Duration(vsched.Now().UnixNano()); d > 0 {
+						wait = d
+						return
+					}
+					e.inboxAt = e.inboxAt[1:]
+				}
 				p = e.inbox[0]
 				e.inbox = e.inbox[1:]
 				return
@@ -130,6 +145,10 @@ func (e *DuplexEnd) loop() {
 				e.fail(errors.New("duplex: connection lost"))
 			}
 			return
+		}
+		if wait > 0 {
+			vsched.Sleep(wait) // the frame is still in flight
+			continue
 		}
 		if p == nil {
 			vsched.RecvStmt(e.sig)
